@@ -29,6 +29,7 @@ WS = WORK / "ws"
 HARNESS_DIR = VERIF / "harness"
 NJOBS = int(os.environ.get("VERIF_JOBS", "8"))
 TARGET = WORK / "target"
+REPLAYS = Path(os.environ.get("VERIF_REPLAY_DIR", str(VERIF / "replays")))
 MEM_BUDGET_GB = float(os.environ.get("VERIF_MEM_GB", "54"))
 MEM_CAP_GB = {"quick": 10.0, "thorough": 24.0}
 ENV = dict(os.environ, CARGO_NET_OFFLINE="true", CARGO_TERM_COLOR="never")
@@ -548,7 +549,7 @@ def _native_reproduces_one(output, desc):
 def replay_counterexample(h, prop, res, logdir, known_descs=()):
     """Ask Kani for concrete playback tests, build them natively against the real code
     (dev profile) and see whether the failing assertion panics there."""
-    rdir = VERIF / "replays" / prop
+    rdir = REPLAYS / prop
     rdir.mkdir(parents=True, exist_ok=True)
     rfile = rdir / f"{h.name}.rs"
     header = [f"// replay for property {prop}, harness {h.name} ({h.file})",
@@ -715,7 +716,7 @@ def check_property(prop, tier, seed, only=None, jobs=None):
             if rest:
                 kd = [k["match"] for _, k in matched]
                 if h.replay == "model":
-                    rdir = VERIF / "replays" / prop
+                    rdir = REPLAYS / prop
                     rdir.mkdir(parents=True, exist_ok=True)
                     rfile = rdir / f"{h.name}.txt"
                     rfile.write_text(
